@@ -15,6 +15,9 @@ HARNESSES = [
          tiers=["thorough"], deadline={"thorough": 600}),
     # page-capacity boundaries of every size class: 0 .. three pages' worth + 2 live blocks x six release orders (BEE)
     dict(name="sbafill", src=["sbafill.c"], variant="asan", deadline={"quick": 150, "thorough": 600}),
+    # pages, parent blocks and the control block in ONE first-fit heap that does not scrub memory (what old pages leave
+    # behind is an environment answer): every history of small / large-unwritten / large-written acquires and releases
+    dict(name="sbaheap", src=["sbaheap.c"], variant="asan", cflags=_P2K, deadline={"quick": 150, "thorough": 900}),
     # concurrent half: 2-3 threads on a multi-threaded allocator, every interleaving at the per-bin mutexes
     dict(name="sbamt", src=["sbamt.c"], variant="sched", wrap=True, deadline={"quick": 150, "thorough": 1500}),
     # free-running ThreadSanitizer twin of the scenario bodies (DESIGN 4.5): no wrapping, OS scheduler, decides nothing;
